@@ -345,10 +345,12 @@ def work(p):
         combos = [tuple(c) for c in w["combos"]]
         path = os.path.join(d, f"vfc03_{w['id']}.py")
         open(path, "w").write(build_program(combos))
-        base = {"program": path, "k": w.get("k", 0), "exit": w.get("exit", "return")}
+        base = {"program": path, "k": w.get("k", 0), "exit": w.get("exit", "return"), "hostile_sys_modules": w.get("default_filter", False)}
         un, err = run_child(d, dict(base, mode="untraced"), f"{w['id']}u")
         tspec = dict(base, mode="traced", faults=w.get("faults", {}), preprofiler=w.get("preprofiler", False), store_logger=w.get("store_logger", False),
-                     program_sets_profile=w.get("program_sets_profile", False), sample_rate=w.get("sample_rate"))
+                     program_sets_profile=w.get("program_sets_profile", False), sample_rate=w.get("sample_rate"), default_filter=w.get("default_filter", False))
+        if w.get("default_filter"):
+            res.count("runs_with_the_default_filter_and_an_allow_list")
         tr, err2 = run_child(d, tspec, f"{w['id']}t")
         wit = {"workload": w}
         if un is None or tr is None:
@@ -399,7 +401,7 @@ def run(ck):
             wid += 1
             workloads.append({"id": wid, "combos": order[i:i + size], "k": [0, 3, 3, 0][rep % 4], "exit": rs.choice(["return", "exception"]),
                               "preprofiler": rs.random() < 0.5, "program_sets_profile": wid % 4 == 0, "sample_rate": [None, None, 2, 5][wid % 4],
-                              "store_logger": wid % 3 == 1})
+                              "store_logger": wid % 3 == 1, "default_filter": wid % 5 == 2})
         rs.shuffle(order)
     # pinned witnesses of the listed findings (findings/C03/*.json), first in both tiers
     fdir = os.path.join(core.VERIF, "findings", "C03")
@@ -429,6 +431,7 @@ def run(ck):
     ck.need("tracer_callbacks", 2000)
     ck.need("fault_plans_fired", 20)
     ck.need("runs_with_the_shipped_store_logger", 20)
+    ck.need("runs_with_the_default_filter_and_an_allow_list", 10)
     ck.need("program_sets_profile_runs_with_preinstalled_profiler", 3)
     if ck.counters.get("fault_plans_not_fired"):
         ck.note(f"{ck.counters['fault_plans_not_fired']} fault sites never fired in their workload (too few calls)")
